@@ -34,7 +34,7 @@ def case_strategy(combo_list):
     types = sorted(by_type)
     stratified = st.sampled_from(types).flatmap(lambda t: st.sampled_from(by_type[t]))
     # half of the cases uniformly over all combinations (weights the many elemental fcc/bcc/hcp crystals), half by type
-    return st.fixed_dictionaries({"combo": st.one_of(st.sampled_from(combo_list), stratified), "pres": gm.presentations(), "gap": gaps()})
+    return st.fixed_dictionaries({"combo": st.one_of(st.sampled_from(combo_list), stratified), "pres": gm.presentations(), "gap": gaps(), "cform": cforms()})
 
 
 def gaps():
@@ -44,5 +44,11 @@ def gaps():
     return st.one_of(st.none(), st.none(), gc.ffloat(3.5, 9.0))
 
 
+def cforms():
+    """how the cell of a slab that is NOT periodic along its normal describes that direction: generous vacuum (default), a zero
+    vector (what ase.build's surface builders return without `vacuum`), or a tight box (cell height = slab thickness)"""
+    return st.sampled_from([None, None, "zero", "tight"])
+
+
 def item_strategy(combo):
-    return st.fixed_dictionaries({"combo": st.just(combo), "pres": gm.presentations(), "gap": gaps()})
+    return st.fixed_dictionaries({"combo": st.just(combo), "pres": gm.presentations(), "gap": gaps(), "cform": cforms()})
